@@ -315,7 +315,16 @@ pub fn gen_file_c(rng: &mut Rng, l: &L, opts: &Opts, patterns: &mut Vec<String>,
         } };
         let no_indent = ["md", "rb", "yaml", "toml", "Makefile", "go.mod"].contains(&l.exts[0]);
         let indent = if no_indent { "" } else { ["", "  ", "\t"][rng.below(3)] };
-        if use_block {
+        // a genuine comment may sit inside the interpolated code of a string literal (below a `string` node of the syntax
+        // tree): tags in it count like in any other comment
+        let interp: Option<(&str, &str)> = match l.exts[0] {
+            "js" => Some(("let q = `a ${ /*", "*/ 1 } b`;")),
+            "ts" => Some(("let q: string = `a ${ /*", "*/ 1 } b`;")),
+            _ => None,
+        };
+        if let (Some((po, pc)), false, true) = (interp, has_multiline, !body.contains('`') && !body.contains("${") && rng.chance(1, 5)) {
+            text += &format!("{indent}{po} {body} {pc}{nl}");
+        } else if use_block {
             let (o, c) = l.block.unwrap();
             if o == "=begin" {
                 text += &format!("=begin{nl}{}{nl}=end{nl}", body.replace('\n', nl));
